@@ -90,3 +90,18 @@ func newDeps(w *world) *nativeDeps {
 }
 
 func closeDeps(*nativeDeps) {}
+
+// ---- mapper dependencies (C16) --------------------------------------------
+
+type nativeMapperDeps struct {
+	mm  relationtuple.MappingManager
+	reg *driver.RegistryDefault
+}
+
+func (d *nativeMapperDeps) MappingManager() relationtuple.MappingManager { return d.mm }
+func (d *nativeMapperDeps) Config(ctx context.Context) *config.Config     { return d.reg.Config(ctx) }
+
+func newMapperDeps(mm relationtuple.MappingManager) *nativeMapperDeps {
+	reg := driver.NewSqliteTestRegistry(verifTB, false, driver.WithNamespaces([]*namespace.Namespace{{Name: "N"}, {Name: "M"}}))
+	return &nativeMapperDeps{mm: mm, reg: reg}
+}
